@@ -6,6 +6,7 @@
 -/
 import Distill.Proofs.Total
 import Distill.Gen.Inventory
+import Distill.Gen.Funcs
 import Distill.Proofs.PathPattern
 import Distill.Proofs.PageGroups
 namespace Distill.C01
@@ -119,5 +120,24 @@ scan's call protocol (no CleanUp before the end): the remembered entry is the la
 group being filled whenever that group is non-empty -/
 theorem groups_prev_never_nil (ops : List Pg.GOp) (h : Pg.NoCleanUp ops) : Pg.Inv (Pg.runOps ops) :=
   Pg.runOps_inv ops h
+
+/-! ### the slice after the case-insensitive prefix test (prev/next finder) -/
+
+/-- `HasPrefixIgnoreCase` as repaired: the first `len(prefix)` bytes of `str` fold-equal the
+prefix (`eq` stands for `strings.EqualFold`, whatever it decides) -/
+def hasPrefixFold (eq : List UInt8 → List UInt8 → Bool) (str pre : List UInt8) : Bool :=
+  decide (pre.length ≤ str.length) && eq (str.take pre.length) pre
+
+/-- when the test succeeds, `linkHref[lenPrefix:]` is in range — for every fold-equality -/
+theorem prefix_slice_total (eq : List UInt8 → List UInt8 → Bool) (str pre : List UInt8)
+    (h : hasPrefixFold eq str pre = true) :
+    (PP.slice str pre.length str.length).isSome = true := by
+  simp only [hasPrefixFold, Bool.and_eq_true, decide_eq_true_eq] at h
+  simp [PP.slice, h.1]
+
+/-- tie: the body of `stringutil.HasPrefixIgnoreCase` is that test -/
+theorem prefix_test_tie :
+    Gen.hasPrefixIgnoreCaseBody = ["return len(str) >= len(prefix) && strings.EqualFold(str[:len(prefix)], prefix)"] := by
+  decide +kernel
 
 end Distill.C01
